@@ -65,6 +65,18 @@ def main():
             rc, out = sh("/venv/bin/python setup.py -q build_ext --inplace", cwd=wt, env=env, timeout=900)
             meta["ran"].append(f"rebuilt the Cython extension in the worktree -> exit {rc}")
         rc1, out1 = sh(["/venv/bin/python", "-W", "ignore", demo], cwd=wt, env=env, timeout=1800)
+        if rc0 == 0 and rc1 == 0:
+            # the change no longer breaks the property on this tree (the code it weakened was repaired meanwhile): keep the last
+            # verified result and say so, instead of recording a 'missed' that is none
+            dst = os.path.join(VERIF, "seeded", f"{prop}-{name}", "meta.json")
+            if os.path.exists(dst):
+                oldm = json.load(open(dst))
+                if oldm.get("demo_confirms") and oldm.get("repo_head") != meta["repo_head"]:
+                    oldm["stale"] = (f"at /repo HEAD {meta['repo_head']} demo.py passes with the patch applied: the change is no longer property-breaking on the repaired code; "
+                                     f"result below is the last verified one, at /repo {oldm.get('repo_head')}")
+                    json.dump(oldm, open(dst, "w"), indent=1)
+                    print(json.dumps({"property": prop, "name": name, "stale": True, "detected": oldm.get("detected")}))
+                    return 0
         meta["demo_with_change"] = {"exit": rc1, "tail": out1[-600:]}
         meta["ran"].append(f"git apply patch.diff; PYTHONPATH=<worktree>/src /venv/bin/python demo.py -> exit {rc1}")
         meta["demo_confirms"] = (rc0 == 0 and rc1 != 0)
